@@ -321,4 +321,47 @@ def install_matid():
     import extshim
     extshim.install()
     import matid  # noqa
+    global TABLES_AT_IMPORT
+    if TABLES_AT_IMPORT is None:
+        TABLES_AT_IMPORT = tables_digest()
     return matid
+
+
+TABLES_AT_IMPORT = None
+_TABLE_NAMES = ("SPACE_GROUP_INFO", "WYCKOFF_SETS", "CHIRALITY_PRESERVING_EUCLIDEAN_NORMALIZERS", "IMPROPER_RIGID_TRANSFORMATIONS", "PROPER_RIGID_TRANSFORMATIONS")
+
+
+def _canon(o):
+    """order-preserving canonical text of a nested table (dict insertion order matters for the normalizer lists)"""
+    import numpy as np
+    if isinstance(o, dict):
+        return "{" + ",".join("%s:%s" % (_canon(k), _canon(v)) for k, v in o.items()) + "}"
+    if isinstance(o, (list, tuple)):
+        return "[" + ",".join(_canon(v) for v in o) + "]"
+    if isinstance(o, np.ndarray):
+        return "a" + repr(o.tolist())
+    return repr(o)
+
+
+def tables_digest():
+    """per built-in table and per space group: a digest of the in-memory content (the tables must not be changed by using the library)"""
+    import matid.data.symmetry_data as D
+    out = {}
+    for name in _TABLE_NAMES:
+        t = getattr(D, name, None)
+        if isinstance(t, dict):
+            out[name] = {k: hashlib.sha1(_canon(v).encode()).hexdigest() for k, v in t.items()}
+        elif t is not None:
+            out[name] = {"*": hashlib.sha1(_canon(t).encode()).hexdigest()}
+    return out
+
+
+def tables_modified():
+    """[(table, key)] whose in-memory content differs from what it was when matid was imported"""
+    now = tables_digest()
+    out = []
+    for name, d in (TABLES_AT_IMPORT or {}).items():
+        for k in set(d) | set(now.get(name, {})):
+            if d.get(k) != now.get(name, {}).get(k):
+                out.append((name, k))
+    return sorted(out, key=repr)
